@@ -431,6 +431,11 @@ func (fv *FV) doPanic(st *State, pos token.Pos, what string) {
 // ---------------------------------------------------------------------------
 
 func (fv *FV) callStatic(st *State, callee *types.Func, recv *Term, recvExpr ast.Expr, c *ast.CallExpr) []Term {
+	if fv.inYieldCall == 0 {
+		if fn, yi, lit := fv.yieldLitArg(c); yi >= 0 && fn == callee {
+			return fv.callWithYieldClosure(st, callee, recv, recvExpr, c, yi, lit)
+		}
+	}
 	fi := fv.w.lookupFunc(callee)
 	var fc *FuncContract
 	var pc *PkgContracts
@@ -455,7 +460,12 @@ func (fv *FV) callStatic(st *State, callee *types.Func, recv *Term, recvExpr ast
 		if sig.Variadic() && i >= np-1 && !c.Ellipsis.IsValid() {
 			break
 		}
-		v := fv.evalExpr(st, a)
+		var v Term
+		if id, ok := a.(*ast.Ident); ok && id.Name == "_govc_yield_" && fv.rangeCallback != nil {
+			v = *fv.rangeCallback
+		} else {
+			v = fv.evalExpr(st, a)
+		}
 		if i < np {
 			v = fv.asParam(v, sig.Params().At(i).Type())
 		}
